@@ -157,6 +157,26 @@ func init() {
 						}
 					}
 				}
+				// k = 5..8: lists of '=' points, lists of '!=' exclusions, and three / four lower-upper pairs;
+				// bounds staggered by a concrete leading component, the probe symbolic
+				{
+					stag := func(n int) string {
+						parts := make([]string, n)
+						for i := range parts {
+							parts[i] = strings.Replace(ts[0], "{d}", fmt.Sprint(i+1), 1)
+						}
+						return strings.Join(parts, "|")
+					}
+					rep := func(op string, n int) string { return strings.TrimSpace(strings.Repeat(op+" ", n)) }
+					long := [][2]string{{rep("=", 5), stag(5)}, {rep("!=", 5), stag(5)}, {">= < >= < >= <", stag(6)}, {"= != = != =", stag(5)}}
+					if tier == "thorough" {
+						long = append(long, [2]string{rep("=", 8), stag(8)}, [2]string{rep("!=", 8), stag(8)}, [2]string{"> <= > <= > <= > <=", stag(8)}, [2]string{"= >= < != >= <= =", stag(7)})
+					}
+					for _, lg := range long {
+						out = append(out, &Config{ID: fmt.Sprintf("C04/%s/long/%s", scheme, lg[0]), Pkg: zzhPkg, Func: "C04VersN",
+							Args: []ArgSpec{ArgStr(eco), ArgStr(scheme), ArgStr(lg[0]), ArgTmpl(lg[1]), ArgTmpl(ts[0])}})
+					}
+				}
 				if scheme == "pypi" {
 					// PEP 440 pre-release default: pre-/dev-release probes against ranges that do or do not
 					// name a pre-release (in any comparator, '!=' included)
@@ -240,7 +260,7 @@ func init() {
 			return out
 		},
 		Bounds: func(tier string) string {
-			return "11 schemes; every VERS-valid comparator sequence with k <= 3 constraints, and for k = 4 the two-pair sequences (lower upper lower upper, all 16 inclusiveness combinations; thorough adds one pair with an = point and a != exclusion in every position); k = 5..8 of the property is NOT reached; versions and probes from 2 (quick) / 3 (thorough) small numeric templates per scheme; pypi: final/post releases, plus k <= 2 ranges with pre-release bounds and pre-/dev-release probes against the PEP 440 default"
+			return "11 schemes; every VERS-valid comparator sequence with k <= 3 constraints, and for k = 4 the two-pair sequences (lower upper lower upper, all 16 inclusiveness combinations; thorough adds one pair with an = point and a != exclusion in every position); for k = 5..8 four (quick) / eight (thorough) sequences: lists of '=' points, lists of '!=' exclusions, three and four lower/upper pairs, mixed; versions and probes from 2 (quick) / 3 (thorough) small numeric templates per scheme; pypi: final/post releases, plus k <= 2 ranges with pre-release bounds and pre-/dev-release probes against the PEP 440 default"
 		},
 		Assume: []string{"scheme -> ecosystem routing table is spec-side (DESIGN B.5)", "the interval denotation versSem in harness/pkg/zzh/vers.go is the spec-side reading of the VERS specification"},
 	})
